@@ -1,5 +1,5 @@
 """C01 — exhaustive, duplicate-free enumeration of expression trees."""
-import itertools, os, re
+import itertools, json, os, re, shutil
 import common, extract, libgen
 
 LEAN_MODULE = ["ESRVerif.Props.C01", "ESRVerif.Props.C01b", "ESRVerif.Props.C01c"]
@@ -15,12 +15,17 @@ LEVEL_TEXT = ("Lean theorems, unbounded in the complexity n and in the basis: ch
               "binary ancestors (what the theorems above are about) and statement by statement with parent-pointer climb, fuel and the "
               "post-loop None-in-lefts/rights tests on the arrays; checkTreePtr_eq proves the two equal on every string (success, "
               "part_considered, the three pointer arrays, raise; fuel never runs out). The models are tied to the code by exhaustive "
-              "correspondence (all 3^n strings against both check_tree models, all shapes, all trees of the six regenerated bases and PRNG sub-bases) and by an "
-              "independent recursive enumerator run against the real code.")
+              "correspondence (all 3^n strings against both check_tree models, all shapes, all trees of the six regenerated bases, PRNG sub-bases and one basis "
+              "per arity-class size profile - every pattern of empty/singleton/larger classes - through shape_to_functions and through generate_equations as a whole) and by an "
+              "independent recursive enumerator run against the real code. shapeToTrees_eq_nil_iff/generate_eq_usable/usable_shape_needed: a shape contributes "
+              "trees iff every arity it uses has a non-empty class, so the shape loop must not be narrowed by anything else about the basis.")
 TECHNIQUE = "Lean 4 proof (induction over strings/trees; loop invariant relating the stack to the parent-pointer arrays) on hand models of check_tree (stack and pointer level)/get_allowed_shapes/shape_to_functions + regenerated tables + exhaustive model-code correspondence"
 RULE = ("check_tree: every string over {0,1,2} up to the tier length, compared with the stack model and the pointer-level model (distinct = the string; non-trivial = length>=2); shapes: every n up to the bound; "
-        "labelling: every shape x basis (six shipped + PRNG sub-bases) with at most the tier's tree budget (distinct = (shape,basis)); "
-        "files: generated libraries under 1 and 3 ranks")
+        "labelling: every shape x basis (six shipped + PRNG sub-bases + the arity-class profile grid) with at most the tier's tree budget (distinct = (shape,basis)); "
+        "generate_equations in-process: every n up to the bound x (profile grid: one basis per combination of class sizes, nullary in {}, {x}, {a}, {x,a}[, {x,a,1}], "
+        "unary and binary 0..2 (0..3 thorough) labels PRNG-drawn, so every emptiness/singleton pattern of the three classes occurs for every seed; six shipped; PRNG sub-bases) "
+        "within the tree budget (distinct = (n,basis); non-trivial = at least one tree exists); "
+        "files: generated libraries under 1-3 ranks, shipped sets and a verif_* basis with an empty operator class")
 EXPLANATION = LEVEL_TEXT
 TRUSTED = ["hand models ESRVerif/Model/Shape.lean, ShapePtr.lean, Labeling.lean (ShapePtr mirrors check_tree's parent-pointer climb statement by statement and is proved equal to the stack model; both tied by exhaustive correspondence incl. the three pointer arrays)",
            "harness/extractors/shape.py (pre-filter rules, bases)", "numpy U100 label truncation not modelled"]
@@ -142,8 +147,28 @@ def _sub_bases(ctx, k):
     for _ in range(k):
         b0 = ctx.rng.choice([["x", "a"], ["x"], ["a"], ["x", "a", "1"]])
         b1 = ctx.rng.sample(full[1], ctx.rng.choice([0, 1, 1, 2, 3]))
-        b2 = ctx.rng.sample(full[2], ctx.rng.choice([1, 2, 2, 3]))
+        b2 = ctx.rng.sample(full[2], ctx.rng.choice([0, 1, 2, 2, 3]))
         out.append(("rnd", [b0, b1, b2]))
+    return out
+
+
+_POOL = (["x", "a", "1"], ["square", "exp", "inv", "sqrt_abs", "log_abs", "cube", "sin"], ["+", "*", "-", "/", "pow"])
+
+
+def _profile_bases(ctx, deep):
+    """The arity-class profile grid: one basis for EVERY combination of class sizes (k0, k1, k2) in the tier's box, so every
+    emptiness pattern of the three classes (8 of them), every singleton pattern and every mixed one is present for every seed;
+    only the labels filling a profile are drawn from ctx.rng.  The nullary class additionally runs through both singletons
+    ['x'] (no parameter) and ['a'] (every leaf renumbered)."""
+    null = [[], ["x"], ["a"], ["x", "a"]] + ([["x", "a", "1"]] if deep else [])
+    kmax = 3 if deep else 2
+    out = []
+    for b0 in null:
+        for k1 in range(kmax + 1):
+            for k2 in range(kmax + 1):
+                b1 = ctx.rng.sample(_POOL[1], k1)
+                b2 = ctx.rng.sample(_POOL[2], k2)
+                out.append(("prof%d%d%d%s" % (len(b0), k1, k2, "".join(b0)), [list(b0), b1, b2]))
     return out
 
 
@@ -166,6 +191,9 @@ def _corr_label(ctx, nmax, budget, bases):
                         all_fun, all_tree, _, _, _ = g.shape_to_functions(np.array(s, dtype=int), b)
                     except Exception as e:                                        # a valid shape must be labelled, not crash
                         ctx.case(("label", s, tuple(map(tuple, b))), nontrivial=cnt >= 2, n=max(cnt, 1))
+                        if cnt == 0:                                              # nothing to emit: no tree is lost (the model returns the empty list)
+                            ctx.disagree("corr:shape_to_functions", "shape %s basis %s: code raised %r, model returns no tree" % (s, b, e))
+                            continue
                         ctx.fail("shape_to_functions:%s:%s" % ("".join(map(str, s)), name),
                                  "shape %s basis %s: shape_to_functions raised %r, so none of its %d trees is emitted" % (s, b, e, cnt),
                                  dict(kind="label", s=list(s), basis=b))
@@ -190,6 +218,167 @@ def _corr_label(ctx, nmax, budget, bases):
     if ops:
         ctx.sample(dict(op=ops[len(ops) // 3], code=real[len(ops) // 3][:160]))
     return len(ops), len(bad)
+
+
+_TOPO = re.compile(r"Original number of trees:\s*(\d+)")
+
+
+def _run_generate(g, n, b, outdir):
+    """one real generate_equations(n, b, outdir) call in this process: the lines of orig_trees_<n>.txt, the printed count and the
+    shapes handed to shape_to_functions (None if that hook point is not used by the code)"""
+    import contextlib, io
+    os.makedirs(outdir, exist_ok=True)
+    seen = []
+    orig = getattr(g, "shape_to_functions", None)
+
+    def spy(shape, *a, **k):
+        seen.append(tuple(int(x) for x in shape))
+        return orig(shape, *a, **k)
+    fat = getattr(g, "find_additional_trees", None)
+    raised = []
+
+    def fat_tolerant(tree, labels, basis, *a, **k):
+        # the rewriter that proposes EXTRA trees is not C01's subject (C11; its TypeError for bases with log_abs+inv and no '-'
+        # is known finding F13): if it raises, this original tree simply gets no extra trees; the original trees do not depend on it
+        try:
+            return fat(tree, labels, basis, *a, **k)
+        except Exception as e:
+            raised.append(repr(e)[:80])
+            return [tree], [labels]
+    if orig is not None:
+        g.shape_to_functions = spy
+    if fat is not None:
+        g.find_additional_trees = fat_tolerant
+    buf = io.StringIO()
+    try:
+        with contextlib.redirect_stdout(buf):
+            g.generate_equations(n, [list(c) for c in b], outdir)
+    finally:
+        if orig is not None:
+            g.shape_to_functions = orig
+        if fat is not None:
+            g.find_additional_trees = fat
+    m = _TOPO.search(buf.getvalue())
+    path = os.path.join(outdir, "orig_trees_%d.txt" % n)
+    trees = [tuple(t) for t in libgen.read_trees(path) if t] if os.path.exists(path) else None
+    return dict(trees=trees, printed=int(m.group(1)) if m else None, shapes=seen, rewriter_raised=len(raised))
+
+
+def _judge_generate(n, b, r):
+    """the property itself on one generate_equations run; returns a list of complaints (empty = holds)"""
+    import collections
+    want = [t for s in sorted(_trees(n)) for t in _labelled(s, b)]
+    bad = []
+    if r["trees"] is None:
+        return ["orig_trees_%d.txt was not written" % n], want
+    cg, cw = collections.Counter(r["trees"]), collections.Counter(want)
+    if cg != cw:
+        miss = sorted((cw - cg).elements())
+        extra = sorted((cg - cw).elements())
+        bad.append("orig_trees_%d.txt has %d lines but %d trees with %d nodes exist over this basis: %d missing (e.g. %s), %d unexpected/malformed/duplicated (e.g. %s)" % (
+            n, len(r["trees"]), len(want), n, len(miss), [list(t) for t in miss[:2]], len(extra), [list(t) for t in extra[:2]]))
+    if r["printed"] is not None and r["printed"] != len(want):
+        bad.append("printed 'Original number of trees: %d' but %d trees exist" % (r["printed"], len(want)))
+    return bad, want
+
+
+def _corr_generate(ctx, nmax, bases, budget):
+    """generate_equations itself (shape loop + labelling + file writing, one rank, in this process) for every basis of the
+    arity-class profile grid and every n: files and printed count vs the independent enumerator (oracle) and vs the model."""
+    from esr.generation import generator as g
+    root = os.path.join(ctx.tmp, "c01_gen")
+    ops, real, hooked = [], [], False
+    cons = []
+    nrew = 0
+    profiles = {}
+    for bi, (name, b) in enumerate(bases):
+        prof = "".join("0" if not c else "1" if len(c) == 1 else "+" for c in b)
+        for n in range(1, nmax + 1):
+            cnt = sum(len(b[0]) ** s.count(0) * len(b[1]) ** s.count(1) * len(b[2]) ** s.count(2) for s in _trees(n))
+            if cnt > budget:
+                continue
+            key = "generate_equations:%s:n=%d" % (name, n)
+            rp = dict(kind="gen", n=n, basis=b)
+            try:
+                r = _run_generate(g, n, b, os.path.join(root, "b%d_n%d" % (bi, n)))
+            except Exception as e:
+                ctx.case(("gen", n, tuple(map(tuple, b))), nontrivial=cnt >= 1, n=max(cnt, 1))
+                ctx.fail(key, "generate_equations(%d, %s) raised %r: none of the %d trees with %d nodes over this basis is emitted" % (n, b, e, cnt, n), rp)
+                continue
+            ctx.case(("gen", n, tuple(map(tuple, b))), nontrivial=cnt >= 1, n=max(cnt, 1))
+            profiles[prof] = profiles.get(prof, 0) + 1
+            nrew += r["rewriter_raised"]
+            bad, want = _judge_generate(n, b, r)
+            if bad:
+                ctx.fail(key, "generate_equations(%d, %s): %s" % (n, b, "; ".join(bad)), rp)
+            hooked = hooked or bool(r["shapes"])
+            cons.append((key, rp, n, b, r["shapes"]))
+            ops += ["gen %d %s %s %s" % (n, _bs(b[0]), _bs(b[1]), _bs(b[2])), "ntrees %d %s %s %s" % (n, _bs(b[0]), _bs(b[1]), _bs(b[2]))]
+            real += ["-" if not r["trees"] else ";".join(",".join(t) for t in r["trees"]), "?" if r["printed"] is None else str(r["printed"])]
+    if hooked:
+        # "the set of tree shapes it considers is exactly the set of valid shapes with n nodes" (whatever the basis); only judged
+        # when generate_equations is seen to route its shapes through shape_to_functions at all
+        for key, rp, n, b, shapes in cons:
+            if set(shapes) != set(_trees(n)):
+                miss = sorted(set(_trees(n)) - set(shapes))[:3]
+                extra = sorted(set(shapes) - set(_trees(n)))[:3]
+                ctx.fail(key.replace("generate_equations:", "shapes_considered:"),
+                         "generate_equations(%d, %s) considered %d shapes, %d valid shapes with %d nodes exist: never considered %s, not a tree shape %s" % (
+                             n, b, len(set(shapes)), len(_trees(n)), n, miss, extra), dict(rp, kind="gen_shapes"))
+    out = common.model(ops) if ops else []
+    bad = [(o, a, m) for o, a, m in zip(ops, real, out) if a != m and a != "?"]
+    for o, a, m in bad[:5]:
+        ctx.disagree("corr:generate_equations", "%s: code=%s model=%s" % (o, a[:200], m[:200]))
+    ctx.extra["generate_profiles"] = dict(note="arity-class profile of the bases run through generate_equations in-process: per class 0 = empty, 1 = singleton, + = two or more; value = (basis, n) runs",
+                                          profiles=profiles, shapes_hook_seen=hooked, rewriter_exceptions_tolerated=nrew)
+    if ops:
+        ctx.sample(dict(op=ops[2 * (len(ops) // 4)], code=real[2 * (len(ops) // 4)][:160]))
+    shutil.rmtree(root, ignore_errors=True)
+    return len(ops), len(bad)
+
+
+def _ranks_generate(ctx, cases, P, tag):
+    """generate_equations for (n, basis) cases under P ranks (harness/workers/c01_gen_eq.py): shape_to_functions splits its
+    labellings over the ranks, rank 0 writes the files.  Oracle and model comparison as in `_corr_generate`."""
+    import mpirun
+    root = os.path.join(ctx.tmp, "c01_geq_%s" % tag)
+    os.makedirs(root, exist_ok=True)
+    res = mpirun.run(P, [os.path.join(common.HARNESS, "workers", "c01_gen_eq.py"), json.dumps([[n, b] for n, b in cases]), root],
+                     timeout=600, env_extra=ctx.env(), cwd=ctx.stage, python=common.PY, stdout_dir=root)
+    out0 = open(res["stdout"][0]).read() if res.get("stdout") else ""
+    chunks = {}
+    for part in out0.split("@@C01CASE ")[1:]:
+        head, _, rest = part.partition("\n")
+        if head.strip().isdigit():
+            chunks[int(head)] = rest
+    ops, real = [], []
+    for i, (n, b) in enumerate(cases):
+        rp = dict(kind="ranks", n=n, basis=b, P=P)
+        key = "generate_equations:P=%d:%s:n=%d" % (P, "|".join(_bs(c) for c in b), n)
+        path = os.path.join(root, "case%d" % i, "orig_trees_%d.txt" % n)
+        m = _TOPO.search(chunks.get(i, ""))
+        done = "New number of trees" in chunks.get(i, "")
+        r = dict(trees=[tuple(t) for t in libgen.read_trees(path) if t] if (done and os.path.exists(path)) else None,
+                 printed=int(m.group(1)) if m else None, shapes=[])
+        bad, want = _judge_generate(n, b, r)
+        ctx.case(("ranks", P, n, tuple(map(tuple, b))), nontrivial=len(want) >= 1, n=max(len(want), 1))
+        if not done:
+            if want or not res["ok"]:
+                ctx.fail(key, "generate_equations(%d, %s) under %d ranks did not complete (%s, exit codes %s): %d trees with %d nodes exist over this basis" % (
+                    n, b, P, res.get("error"), res.get("exit_codes"), len(want), n), rp)
+            if not res["ok"]:
+                break                                           # the cases after a crash were never started
+            continue
+        if bad:
+            ctx.fail(key, "generate_equations(%d, %s) under %d ranks: %s" % (n, b, P, "; ".join(bad)), rp)
+        ops += ["gen %d %s %s %s" % (n, _bs(b[0]), _bs(b[1]), _bs(b[2])), "ntrees %d %s %s %s" % (n, _bs(b[0]), _bs(b[1]), _bs(b[2]))]
+        real += ["-" if not r["trees"] else ";".join(",".join(t) for t in r["trees"]), "?" if r["printed"] is None else str(r["printed"])]
+    out = common.model(ops) if ops else []
+    nbad = [(o, a, m) for o, a, m in zip(ops, real, out) if a != m and a != "?"]
+    for o, a, m in nbad[:5]:
+        ctx.disagree("corr:generate_equations_ranks", "P=%d %s: code=%s model=%s" % (P, o, a[:200], m[:200]))
+    shutil.rmtree(root, ignore_errors=True)
+    return len(ops), len(nbad)
 
 
 def _wellformed(ctx, bases):
@@ -219,12 +408,15 @@ def _corr_files(ctx, runs):
     gen = extract.EXTRACTORS  # noqa (keeps import used)
     from extractors import shape as shx
     bases = {n: b for n, b, _ in shx.bases(ctx.stage)}
-    for runname, nmax, P in runs:
-        b = bases[runname]
-        r = libgen.generate(ctx, runname, list(range(1, nmax + 1)), P=P, copy="c01_%s_P%d" % (runname, P))
+    for run_ in runs:
+        runname, nmax, P = run_[:3]
+        # a 4th entry is an explicit operator basis, generated under a verif_* run name (duplicate_checker.main's guarded hook)
+        b = run_[3] if len(run_) > 3 and run_[3] is not None else bases[runname]
+        xb = b if len(run_) > 3 and run_[3] is not None else None
+        r = libgen.generate(ctx, runname, list(range(1, nmax + 1)), P=P, basis=xb, copy="c01_%s_P%d" % (runname, P))
         if not r["ok"]:
-            ctx.fail("generation:%s:P=%d" % (runname, P), "generation of %s up to n=%d under %d ranks did not complete: %s exit=%s" % (runname, nmax, P, r["res"]["error"], r["res"]["exit_codes"]),
-                     dict(kind="files", runname=runname, nmax=nmax, P=P))
+            ctx.fail("generation:%s:P=%d" % (runname, P), "generation of %s%s up to n=%d under %d ranks did not complete: %s exit=%s" % (runname, "" if xb is None else " (basis %s)" % xb, nmax, P, r["res"]["error"], r["res"]["exit_codes"]),
+                     dict(kind="files", runname=runname, nmax=nmax, P=P, basis=xb))
             continue
         stdout0 = open(r["stdout"][0]).read()
         printed = [int(x) for x in re.findall(r"Original number of trees: (\d+)", stdout0)]
@@ -235,14 +427,14 @@ def _corr_files(ctx, runs):
         for n in range(1, nmax + 1):
             trees = [tuple(t) for t in libgen.read_trees(libgen.libfile(r["dir"], n, "orig_trees"))]
             want = [t for s in sorted(_trees(n)) for t in _labelled(s, b)]
-            ctx.case(("files", runname, n, P), nontrivial=True, n=len(trees))
+            ctx.case(("files", runname, n, P, tuple(map(tuple, b))), nontrivial=True, n=max(len(trees), 1))
             nops += 2
             if sorted(trees) != sorted(want) or len(set(trees)) != len(trees):
-                ctx.fail("orig_trees:%s:n=%d:P=%d" % (runname, n, P), "orig_trees_%d.txt of %s under %d ranks is not the set of all labelled trees (%d lines, %d expected, %d distinct)" % (n, runname, P, len(trees), len(want), len(set(trees))),
-                         dict(kind="files", runname=runname, nmax=n, P=P))
+                ctx.fail("orig_trees:%s:n=%d:P=%d" % (runname, n, P), "orig_trees_%d.txt of %s%s under %d ranks is not the set of all labelled trees (%d lines, %d expected, %d distinct)" % (n, runname, "" if xb is None else " (basis %s)" % xb, P, len(trees), len(want), len(set(trees))),
+                         dict(kind="files", runname=runname, nmax=n, P=P, basis=xb))
             if n - 1 < len(printed) and printed[n - 1] != len(want):
-                ctx.fail("count:%s:n=%d:P=%d" % (runname, n, P), "printed 'Original number of trees' %d but %d trees exist" % (printed[n - 1], len(want)),
-                         dict(kind="files", runname=runname, nmax=n, P=P))
+                ctx.fail("count:%s:n=%d:P=%d" % (runname, n, P), "%s%s: printed 'Original number of trees' %d but %d trees with %d nodes exist" % (runname, "" if xb is None else " (basis %s)" % xb, printed[n - 1], len(want), n),
+                         dict(kind="files", runname=runname, nmax=n, P=P, basis=xb))
             m = out[2 * (n - 1)]
             model = [] if m == "-" else [tuple(t.split(",")) for t in m.split(";")]
             if model != trees:
@@ -263,10 +455,29 @@ def run(ctx):
     res = {}
     res["check_tree"], res["check_tree_ptr"] = _corr_check_tree(ctx, 10 if deep else 8)
     res["get_allowed_shapes"] = _corr_shapes(ctx, 10 if deep else 9)
-    bases = shipped + _sub_bases(ctx, 12 if deep else 5)
+    prof = _profile_bases(ctx, deep)
+    bases = shipped + _sub_bases(ctx, 12 if deep else 5) + prof
     res["shape_to_functions"] = _corr_label(ctx, 6 if deep else 5, 30000 if deep else 4000, bases)
     res["well_formed"] = _wellformed(ctx, bases)
-    res["files"] = _corr_files(ctx, [("core_maths", 5, 1), ("core_maths", 4, 3), ("ext_maths", 4, 2)] if deep else [("core_maths", 4, 1), ("core_maths", 3, 3)])
+    # generate_equations as a whole (its own shape loop, counts and files), one rank, in this process: the whole profile grid,
+    # the shipped sets and the PRNG sub-bases, every n up to the bound whose tree count fits the budget
+    res["generate_equations"] = _corr_generate(ctx, 7 if deep else 6, prof + bases[:len(bases) - len(prof)], 6000 if deep else 2000)
+    # generate_equations under several ranks for bases with an empty / singleton class (rank 0 writes, every rank labels its block)
+    hole = [pb for pb in prof if pb[1][0] and (not pb[1][1] or not pb[1][2] or len(pb[1][0]) == 1)]
+    picks = ctx.rng.sample(hole, min(len(hole), 8 if deep else 3))
+    res["generate_equations_ranks"] = _ranks_generate(ctx, [(n, b) for _, b in picks for n in range(1, (6 if deep else 5) + 1)], 3 if deep else 2, "holes")
+    # full duplicate_checker.main runs under several ranks; bases with an empty operator class go through the verif_* hook.
+    # (nullary [x, a] and no log_abs: the later stages of main are other properties' subject and have their own findings -
+    # F13 rewriter TypeError with log_abs+inv, check_results on a one-function library)
+    u_ok = [l for l in _POOL[1] if l != "log_abs"]
+    holes = [("verif_c01_nounary", [["x", "a"], [], ctx.rng.sample(_POOL[2], ctx.rng.choice([1, 2]))]),
+             ("verif_c01_nobinary", [["x", "a"], ctx.rng.sample(u_ok, ctx.rng.choice([1, 2])), []])]
+    if deep:
+        runs = [("core_maths", 5, 1), ("core_maths", 4, 3), ("ext_maths", 4, 2)] + [(nm, 5, P, b) for (nm, b), P in zip(holes, (2, 3))]
+    else:
+        nm, b = holes[ctx.rng.randrange(2)]
+        runs = [("core_maths", 4, 1), ("core_maths", 3, 3), (nm, 5 if not b[1] else 4, 2, b)]
+    res["files"] = _corr_files(ctx, runs)
     ctx.extra["corr_obligations"] = len(res)
     ctx.extra["corr_discharged"] = sum(1 for v in res.values() if v[1] == 0)
     ctx.extra["correspondence"] = {k: dict(ops=v[0], mismatches=v[1]) for k, v in res.items()}
@@ -300,9 +511,33 @@ def replay(ctx, data):
         want = _labelled(tuple(rp["s"]), rp["basis"])
         print("shape_to_functions: %d trees, expected %d" % (len(got), len(want)))
         return sorted(got) == sorted(want) and len(set(got)) == len(got)
+    if rp["kind"] in ("gen", "gen_shapes"):
+        n, b = rp["n"], rp["basis"]
+        try:
+            r = _run_generate(g, n, b, os.path.join(ctx.tmp, "c01_replay_gen"))
+        except Exception as e:
+            print("generate_equations(%d, %s) raised %r" % (n, b, e))
+            return False
+        bad, want = _judge_generate(n, b, r)
+        print("generate_equations(%d, %s): orig_trees has %s lines, printed count %s, %d trees exist; shapes considered %d of %d valid" % (
+            n, b, None if r["trees"] is None else len(r["trees"]), r["printed"], len(want), len(set(r["shapes"])), len(_trees(n))))
+        for x in bad:
+            print("  " + x)
+        if rp["kind"] == "gen_shapes" or r["shapes"]:
+            if set(r["shapes"]) != set(_trees(n)):
+                print("  shapes never considered: %s ; considered but not a tree shape: %s" % (sorted(set(_trees(n)) - set(r["shapes"]))[:5], sorted(set(r["shapes"]) - set(_trees(n)))[:5]))
+                if rp["kind"] == "gen_shapes":
+                    return False
+        return not bad
+    if rp["kind"] == "ranks":
+        c2 = common.Ctx("C01", "quick", 0); c2.tmp = ctx.tmp; c2.stage = ctx.stage
+        _ranks_generate(c2, [(rp["n"], rp["basis"])], rp["P"], "replay")
+        for f in c2.failures:
+            print(f["what"])
+        return not c2.failures
     if rp["kind"] == "files":
         c2 = common.Ctx("C01", "quick", 0); c2.tmp = ctx.tmp; c2.stage = ctx.stage
-        _corr_files(c2, [(rp["runname"], rp["nmax"], rp["P"])])
+        _corr_files(c2, [(rp["runname"], rp["nmax"], rp["P"], rp.get("basis"))])
         for f in c2.failures:
             print(f["what"])
         return not c2.failures
